@@ -68,7 +68,10 @@ fn parse_args() -> Args {
 
 pub fn scratch_base() -> PathBuf {
     let t = std::env::var("TMPDIR").unwrap_or_else(|_| "/tmp".to_string());
-    PathBuf::from(t).join(format!("rws-sim-{}", std::process::id()))
+    // every run directory has the same path length (zero-padded pid, three-character leaf): some
+    // error pages of the server quote absolute paths, and response lengths are part of the
+    // event-log hash that a replay has to reproduce
+    PathBuf::from(t).join(format!("rws-sim-{:07}", std::process::id()))
 }
 
 pub struct CheckCfg {
@@ -86,8 +89,8 @@ pub fn run_campaigns(cfg: &CheckCfg, scratch: &Path) -> Result<Agg, String> {
     // determinism spot check before any verdict is believed: a few scenarios of every campaign,
     // twice each, under two different scratch paths
     {
-        let mut ca = runner::RunCtx::new(scratch.join("det-a"));
-        let mut cb = runner::RunCtx::new(scratch.join("x").join("det-b-other-path"));
+        let mut ca = runner::RunCtx::new(scratch.join("dta"));
+        let mut cb = runner::RunCtx::new(scratch.join("dtb"));
         for c in &plan {
             let n = match c.budget {
                 Budget::Count(n) => n,
@@ -105,8 +108,8 @@ pub fn run_campaigns(cfg: &CheckCfg, scratch: &Path) -> Result<Agg, String> {
                 }
             }
         }
-        tree::remove_all(&scratch.join("det-a"));
-        tree::remove_all(&scratch.join("x"));
+        tree::remove_all(&scratch.join("dta"));
+        tree::remove_all(&scratch.join("dtb"));
     }
     let mut pids = vec![];
     std::fs::create_dir_all(scratch).map_err(|e| e.to_string())?;
@@ -117,7 +120,7 @@ pub fn run_campaigns(cfg: &CheckCfg, scratch: &Path) -> Result<Agg, String> {
         }
         if pid == 0 {
             let mut agg = Agg::default();
-            let mut ctx = runner::RunCtx::new(scratch.join(format!("w{}", w)));
+            let mut ctx = runner::RunCtx::new(scratch.join(format!("w{:02}", w)));
             ctx.manifest = cfg.prop == "C13";
             for c in &plan {
                 let deadline = match c.budget {
@@ -231,7 +234,7 @@ fn cmd_replay(args: &Args) -> i32 {
         }
     };
     let scratch = scratch_base();
-    let mut ctx = runner::RunCtx::new(scratch.join("replay"));
+    let mut ctx = runner::RunCtx::new(scratch.join("rpl"));
     ctx.trace = args.opts.contains_key("trace");
     ctx.manifest = rf.scenario.property == "C13";
     println!("replaying {} (property {}, class {}, VERIF_SEED {})", file, rf.property, rf.class, rf.seed);
@@ -280,8 +283,8 @@ fn cmd_selftest(args: &Args) -> i32 {
         };
         let mut mism = 0u64;
         let mut total = 0u64;
-        let base_a = scratch_base().join("selftest-a");
-        let base_b = scratch_base().join("other").join("selftest-b-longer-path");
+        let base_a = scratch_base().join("sta");
+        let base_b = scratch_base().join("stb");
         let mut ca = runner::RunCtx::new(base_a.clone());
         let mut cb = runner::RunCtx::new(base_b.clone());
         for c in &plan {
